@@ -95,7 +95,7 @@ def main(tier='quick'):
     for req, corp in ((False, ulcorpus.ACCEPTOR), (True, ulcorpus.REQUESTOR)):
         for name, sc in sorted(corp.items()):
             total = len(ulcorpus.peer_stream(sc))
-            stride = 1 if (tier == 'thorough' or total <= 400) else 2
+            stride = 1 if (tier == 'thorough' or total <= 400) else max(2, total // 250)
             offsets = sorted(set(list(range(0, total + 1, stride)) + list(range(0, min(total, 200))) + [total]))
             for k in offsets:
                 p = ulcorpus.play(sc, req, fin_at=k)
